@@ -415,6 +415,22 @@ def run_case(case):
 
 # ============================================================================= judging a record
 TEN_PASS = "unable to get time-consistent inputs after ten pass"
+UNFETCHED = "terminated without fetching last"
+
+
+def trailing_zero(case, phases):
+    """some source chunking used in these phases ends with a zero-duration chunk after a non-empty prefix"""
+    for s in case["srcs"]:
+        for key in phases:
+            ch = s[key]
+            if len(ch) > 1 and ch[-1][0] == ch[-1][1]:
+                return True
+    return False
+
+
+def multi_dep_nodes(case, stored, target):
+    _, computed = needed(case, stored, target)
+    return [n for n in case["nodes"] if set(n["outs"]) & computed and len(n["deps"]) > 1]
 
 
 def judge(case, res):
@@ -437,6 +453,10 @@ def judge(case, res):
         if TEN_PASS in exc and two_kind_nodes(case, stored, tgt):
             return (f"D9-shape: {where}: Plugin.iter of a plugin with dependencies of different kinds gave up "
                     f"(RuntimeError: unable to get time-consistent inputs after ten passes) instead of returning the whole-run rows")
+        phases = ["prep_chunks"] if res["phase"] == "prep" else (["chunks", "prep_chunks"] if case["stored"] else ["chunks"])
+        if UNFETCHED in exc and multi_dep_nodes(case, stored, tgt) and trailing_zero(case, phases):
+            return (f"D16-shape: {where}: a stream ends with a zero-duration chunk and Plugin.iter of a plugin with several "
+                    f"dependencies raised RuntimeError 'terminated without fetching last' instead of returning the whole-run rows")
         if shape13 and line == "err TypeError" and "not supported between instances of 'Chunk' and 'Chunk'" in exc:
             return (f"D13-shape: {where}: threaded_mailbox, multi-output plugin with stored/recomputed outputs {shape13}: "
                     f"TypeError '<' between Chunk and Chunk (two senders on the loader-fed mailbox)")
@@ -568,6 +588,8 @@ def gen_case(rng, quick=True, force=None):
                 cuts = sorted(rng.sample(range(1, len(ch)), 11))
                 bounds = [ch[0][0]] + [ch[i][0] for i in cuts] + [ch[-1][1]]
                 ch = gen.chunk_rows(rows, bounds)
+            while len(ch) > 1 and ch[-1][0] == ch[-1][1] and rng.random() < 0.85:
+                ch.pop()        # a trailing zero-duration chunk is the open defect D16: keep it rare
             return [[a, b, [list(r) for r in rr]] for a, b, rr in ch]
         srcs.append(dict(name=name, rows=[list(r) for r in rows], chunks=chunking(), prep_chunks=chunking()))
     # ---- derived nodes
@@ -694,3 +716,190 @@ def brief(case):
     c = case["cfg"]
     return (f"[{g}] tgt={case['target']} stored={','.join(case['stored']) or '-'} {c['proc'][:6]} w={c['workers']} "
             f"lazy={int(c['lazy'])} mm={c['mm']} chunks={'/'.join(str(len(s['chunks'])) for s in case['srcs'])} {case['mode']}")
+
+
+# ============================================================================= ops for the Lean driver
+def op_whole(case):
+    def params(n):
+        k = n["kind"]
+        if k in ("map", "pairfirst", "downchunk", "exhaust"):
+            return str(n["c"])
+        if k == "filter":
+            return f"{n['m']},{n['r']}"
+        if k == "multi":
+            return f"{n['c']},{n['m']},{n['r']}"
+        if k == "overlap":
+            return str(n["w"])
+        return ""
+    g = ";".join(f"{n['kind']}:{params(n)}:{','.join(n['deps'])}:{','.join(n['outs'])}" for n in case["nodes"])
+    srcs = " ".join(f"{s['name']}={sl.show_rows([tuple(r) for r in s['rows']])}" for s in case["srcs"])
+    return f"c01.whole {g} {case['target']} {srcs}"
+
+
+def op_law(lc):
+    chunks = " ".join(f"{a}~{b}~{sl.show_rows([tuple(r) for r in rows])}" for a, b, rows in lc["chunks"])
+    return f"c01.law {lc['span'][0]} {lc['span'][1]} {chunks}"
+
+
+def impl_law(lc):
+    """the laws of chunking evaluated by the harness on a chunk sequence the real code yielded"""
+    chunks = [(a, b, [tuple(r) for r in rows]) for a, b, rows in lc["chunks"]]
+    law = gen.law_abiding(chunks) is None and all(t < e for _, _, rows in chunks for t, e, _ in rows)
+    span = bool(chunks) and chunks[0][0] == lc["span"][0] and chunks[-1][1] == lc["span"][1]
+    return f"ok law={int(law)} span={int(span)} global={int(law)}"
+
+
+# ============================================================================= process pool
+def _worker(args):
+    i, case = args
+    logging.disable(logging.CRITICAL)
+    t0 = time.time()
+    res = run_case(case)
+    res["wall"] = round(time.time() - t0, 2)
+    return i, res
+
+
+def run_pool(cases, workers, budget_s, note=None, stall_s=240):
+    """run the cases in forked worker processes (each has strax imported through lib.straxlib); stops feeding new
+    batches after `budget_s`; a case that produces nothing for `stall_s` seconds is recorded as a hang"""
+    import multiprocessing as mp
+    results = {}
+    t_end = time.time() + budget_s
+    todo = list(enumerate(cases))
+    batch = max(8, 6 * workers)
+    pool = mp.get_context("fork").Pool(workers)
+    try:
+        while todo and time.time() < t_end:
+            part, todo = todo[:batch], todo[batch:]
+            it = pool.imap_unordered(_worker, part, chunksize=1)
+            got = set()
+            try:
+                for _ in part:
+                    i, res = it.next(timeout=stall_s)
+                    results[i] = res
+                    got.add(i)
+            except mp.TimeoutError:
+                for i, _c in part:
+                    if i not in got:
+                        results[i] = dict(line="err Hang", exc=f"no result within {stall_s} s (worker stuck)", phase="main",
+                                          elapsed=float(stall_s), chunks=None, saved={}, prep=[], expect={}, oracle_exc=None,
+                                          rows=None, hang=True)
+                pool.terminate()
+                pool = mp.get_context("fork").Pool(workers)
+        if todo and note:
+            note(f"time budget of {budget_s} s reached: {len(todo)} of {len(cases)} generated cases not run")
+    finally:
+        pool.terminate()
+        pool.join()
+    return results
+
+
+# ============================================================================= the check
+def fix_timeouts(case):
+    """a run with the shape of D13 in lazy mode ends only when the mailbox timeout fires: keep that wait short"""
+    if case["cfg"]["proc"] == "threaded_mailbox" and d13_shape(case, set(case["stored"]), case["target"]):
+        case["cfg"]["timeout"] = 6
+    if case["prep_cfg"]["proc"] == "threaded_mailbox":
+        have = set()
+        for t in case["stored"]:
+            if d13_shape(case, have, t):
+                case["prep_cfg"]["timeout"] = 6
+            have.add(t)
+    return case
+
+
+def shape_of(msg):
+    for tag in ("D9-shape", "D13-shape", "D16-shape"):
+        if msg and msg.startswith(tag):
+            return tag
+    return None
+
+
+def nontrivial_case(case, res):
+    rows = res.get("rows") or []
+    return bool(rows) and (any(len(s["chunks"]) > 1 for s in case["srcs"]) or bool(case["stored"])
+                           or case["cfg"]["proc"] == "threaded_mailbox")
+
+
+def branch_of(case, res):
+    c = case["cfg"]
+    return f"{c['proc'][:6]}/w{c['workers']}/lazy{int(c['lazy'])}/stored{min(len(case['stored']), 3)}/{res['line'].split(' ')[0]}"
+
+
+def gen_cases(ctx):
+    n = ctx.pick(900, 9000)
+    cases = []
+    for i in range(n):
+        force = None
+        if i % 40 == 7:
+            force = {"brick": True}
+        elif i % 60 == 11:
+            force = {"d13": True}
+        cases.append(fix_timeouts(gen_case(ctx.rng, quick=not ctx.thorough, force=force)))
+    return cases
+
+
+def run(ctx):
+    cases = gen_cases(ctx)
+    workers = int(os.environ.get("VERIF_C01_WORKERS", "8"))
+    results = run_pool(cases, workers, ctx.pick(150, 1000), note=ctx.note)
+    done = [i for i in range(len(cases)) if i in results]
+    msgs = {}
+    for i in done:
+        res = results[i]
+        if res.get("hang"):
+            msgs[i] = f"{brief(cases[i])}: the run hung ({res['exc']})"
+        else:
+            msgs[i] = judge(cases[i], res)
+    stats = ctx.comp("e2e").branch_hits
+    for i in done:
+        for n in cases[i]["nodes"]:
+            stats["kind:" + n["kind"]] += 1
+        stats["mode:" + cases[i]["mode"]] += 1
+        stats["sources:%d" % len(cases[i]["srcs"])] += 1
+        if results[i]["prep"]:
+            stats["with-twin-prep"] += 1
+        if results[i].get("saved"):
+            stats["storage-read-back"] += 1
+    rule = ("random DAGs of 2-6 data types over 1-2 independently chunked sources x processor x max_workers x lazy x "
+            "max_messages x rechunk x pre-stored subset; impl = real Context.get_iter/get_array (row ids of the target), "
+            "model = driver `c01.whole`; non-trivial = the target has rows and (a source has > 1 chunk, or something is "
+            "pre-stored, or the threaded processor is used)")
+    groups = {}
+    for i in done:
+        groups.setdefault(shape_of(msgs[i]) or "", []).append(i)
+    for tag, idx in sorted(groups.items()):
+        name = "e2e" if not tag else "e2e/" + tag
+        sub = [dict(cases[i], _i=i) for i in idx]
+        ctx.correspond(name, sub, impl=lambda c: results[c["_i"]]["line"], to_op=op_whole,
+                       oracle=lambda c, o: msgs[c["_i"]],
+                       nontrivial=lambda c, o: nontrivial_case(c, results[c["_i"]]),
+                       branch=lambda c, o: branch_of(c, results[c["_i"]]), rule=rule,
+                       in_hyp=lambda c, o: not o.startswith("err"))
+    # the property's second sentence, evaluated by the harness and by the model's predicate on what was yielded / stored
+    law_cases = []
+    for i in done:
+        res = results[i]
+        if res.get("chunks") and res["line"].startswith("ok"):
+            law_cases.append(dict(span=cases[i]["span"], chunks=res["chunks"], what="yielded"))
+        for t, rec in sorted((res.get("saved") or {}).items()):
+            if rec.get("chunks"):
+                law_cases.append(dict(span=cases[i]["span"], chunks=rec["chunks"], what="stored"))
+    ctx.correspond("law", law_cases, impl=impl_law, to_op=op_law,
+                   oracle=lambda c, o: None if o == "ok law=1 span=1 global=1" else f"{c['what']} chunk sequence breaks the laws of chunking: {o}",
+                   nontrivial=lambda c, o: len(c["chunks"]) > 1 and any(rows for _, _, rows in c["chunks"]),
+                   branch=lambda c, o: c["what"],
+                   rule="chunk sequences yielded for the target / read back from storage; impl = harness evaluation of the laws, "
+                        "model = `lawAbidingB` / `span` / `lawAbidingGlobalB`; non-trivial = > 1 chunk and some rows")
+
+
+def replay(ctx, body):
+    case = (body.get("case") or {}).get("case")
+    if not isinstance(case, dict):
+        return None
+    if "nodes" not in case:          # a `law` case
+        out = impl_law(case)
+        return None if out == "ok law=1 span=1 global=1" else f"chunk sequence breaks the laws of chunking: {out}"
+    logging.disable(logging.CRITICAL)
+    res = run_case(case)
+    return judge(case, res)
